@@ -434,15 +434,21 @@ func leafStrings(sv reflect.Value, fs []LField) []string {
 				out = append(out, t.Format("15:04:05"))
 			} else if t.IsZero() {
 				out = append(out, "zero")
-			} else {
+			} else if l.F.Text == "types.DateTime" {
 				out = append(out, t.Format("2006-01-02 15:04:05"))
+			} else { // a date is its calendar day (the carrier's time of day is 01:00 where that day has no midnight)
+				out = append(out, t.Format("2006-01-02"))
 			}
 		case "*types.Date", "*types.DateTime":
 			if v.IsNil() {
 				out = append(out, "nil")
 			} else {
 				t := v.Elem().Convert(reflect.TypeOf(time.Time{})).Interface().(time.Time)
-				out = append(out, t.Format("2006-01-02 15:04:05"))
+				if l.F.Text == "*types.Date" {
+					out = append(out, t.Format("2006-01-02"))
+				} else {
+					out = append(out, t.Format("2006-01-02 15:04:05"))
+				}
 			}
 		case "*types.HHmm":
 			if v.IsNil() {
